@@ -63,9 +63,8 @@ WellFormed(obj) ==
                   /\ (i > 1 => obj.secs[i].size = 0),
   \A i \in Mains(obj) : /\ obj.recs[i].off # 0 => (LET s == StrAt(obj, obj.recs[i].off) IN s # <<-1>> /\ Len(s) > 8)   \* 10 long names resolve
                         /\ obj.recs[i].sec \in {-2, -1, 0, 1, 2, 3},
-  \* 11 string table = exactly the distinct long names, each NUL-terminated
-  LET longs == {NameOf(obj, obj.recs[i]) : i \in {j \in Mains(obj) : obj.recs[j].off # 0}} IN
-      Len(obj.strtab) = SumLen(SetToSeqOfBytes(longs)) + Cardinality(longs),
+  \* 11 the string table is NUL-terminated text (how names share storage is the writer's business: tail merging is legal)
+  obj.strtab = << >> \/ obj.strtab[Len(obj.strtab)] = 0,
   \* 12 .file and the three section symbols with their auxiliary records
   /\ Len(obj.recs) >= 8
   /\ obj.recs[1].short = <<46, 102, 105, 108, 101>> /\ obj.recs[1].naux = 1 /\ obj.recs[1].class = 103 /\ obj.recs[1].sec = -2
